@@ -63,6 +63,8 @@ class Context(object):
     def disconnect(self):
         self.disconnects += 1
         registry.iscsi_events.append(("disconnect", self.targetname))
+        # libiscsi's iscsi_disconnect() hands back a result code (0, or -1 when the connection is already gone)
+        return getattr(registry, "disconnect_result", None)
 
     def command(self, lun, task, dataout, datain):
         if self.connected is None:
